@@ -26,7 +26,8 @@ KINDS = ["emb", "cat-logits", "cat-probs", "bin-probs", "gau", "gau-lp", "poly2"
 
 def obs_values(inp, pos):
     if inp.startswith(("gau", "poly")):
-        return [-0.6, 0.0, 1.3]
+        # Python ints and floats are mixed on purpose (the observation tensors then differ in dtype)
+        return [1, -0.6, 1.3] if pos % 2 == 0 else [-0.6, 0, 1.3]
     if inp.startswith("bin"):
         return list(range(2 + (pos % 2)))
     return list(range(2 + (pos % 2)))
